@@ -22,11 +22,19 @@ Section Kids.
   Variable pr : nat -> node -> bytes.
   Definition pr_kids (ind : nat) (k : list node) : bytes := flat_map (pr ind) k.
 End Kids.
+(* pre and textarea: the content is written by the verbatim serialiser (component.go:renderNodeVerbatim) -
+   the plain serialisation, nothing added or removed - after one extra line feed when the content itself
+   begins with one (a parser drops the first line feed after these start tags) *)
+Definition is_verbatim (t : bytes) : bool := bytes_eqb t (bs "pre") || bytes_eqb t (bs "textarea").
+Definition starts_nl (k : list node) : bool := match k with Text (c :: _) :: _ => beq c x0a | _ => false end.
 Fixpoint pretty (fuel : nat) (ind : nat) (n : node) : bytes :=
   match fuel with O => [] | S f =>
   match n with
   | Text s => if wsonly s then [] else spaces ind ++ escape s
   | Elem t a k =>
+      if is_verbatim t then
+        spaces ind ++ open_tag t a ++ (if starts_nl k then nl else []) ++ flat_map ser k ++ close_tag t ++ nl
+      else
       match k with
       | [] => spaces ind ++ open_tag t a ++ close_tag t ++ nl
       | [Text s] => spaces ind ++ open_tag t a ++ escape s ++ close_tag t ++ nl
@@ -79,6 +87,26 @@ Proof.
     apply IH. intros y Hy. apply H. now right.
 Qed.
 
+(* the plain serialisation is itself a padded serialisation of the stripped forest (all pads empty, a
+   white-space-only text node being a pad) *)
+Lemma ser_padded : forall f n, depth n <= f -> PSF (strip f n) (ser n).
+Proof.
+  induction f as [|f IH]; intros n Hd; [destruct n; cbn in Hd; lia|].
+  destruct n as [s | t a k]; cbn [strip ser].
+  - destruct (wsonly s) eqn:E; [rewrite (escape_ws _ E); now constructor|].
+    apply PSF_one. replace (escape s) with ([] ++ escape s ++ []) by (cbn [app]; apply app_nil_r).
+    constructor; reflexivity.
+  - apply PSF_one. cbn [depth] in Hd.
+    replace ([x3c] ++ t ++ ser_attrs a ++ [x3e] ++ flat_map ser k ++ [x3c; x2f] ++ t ++ [x3e])
+      with ([] ++ open_tag t a ++ [] ++ (flat_map ser k ++ []) ++ close_tag t ++ [])
+      by (unfold open_tag, close_tag; cbn [app]; now rewrite !app_nil_r, <- !app_assoc).
+    constructor; try reflexivity.
+    assert (Hk : forall x, In x k -> PSF (strip f x) (ser x)).
+    { intros x Hx. apply IH. pose proof (depth_in _ _ Hx). lia. }
+    clear Hd. induction k as [|x r IHr]; cbn [flat_map]; [now constructor|].
+    rewrite <- app_assoc. apply PSF_app; [apply Hk; now left|]. apply IHr. intros y Hy. apply Hk. now right.
+Qed.
+
 Theorem pretty_is_padded : forall f ind n, depth n <= f -> PSF (strip f n) (pretty f ind n).
 Proof.
   induction f as [|f IH]; intros ind n Hd; [destruct n; cbn in Hd; lia|].
@@ -86,6 +114,16 @@ Proof.
   - destruct (wsonly s) eqn:E; [constructor; reflexivity|].
     apply PSF_one. rewrite <- (app_nil_r (escape s)). constructor; [apply ws_spaces|reflexivity].
   - apply PSF_one. cbn [depth] in Hd.
+    destruct (is_verbatim t).
+    { (* pre / textarea: verbatim content *)
+      replace (spaces ind ++ open_tag t a ++ (if starts_nl k then nl else []) ++ flat_map ser k ++ close_tag t ++ nl)
+        with (spaces ind ++ open_tag t a ++ (if starts_nl k then nl else []) ++ (flat_map ser k ++ []) ++ close_tag t ++ nl)
+        by now rewrite app_nil_r.
+      constructor; [apply ws_spaces|destruct (starts_nl k); reflexivity|reflexivity|].
+      assert (Hk : forall x, In x k -> PSF (strip f x) (ser x)).
+      { intros x Hx. apply ser_padded. pose proof (depth_in _ _ Hx). lia. }
+      clear Hd. induction k as [|x r IHr]; cbn [flat_map]; [now constructor|].
+      rewrite <- app_assoc. apply PSF_app; [apply Hk; now left|]. apply IHr. intros y Hy. apply Hk. now right. }
     assert (Hk : forall x ind', In x k -> PSF (strip f x) (pretty f ind' x)).
     { intros x ind' Hx. apply IH. pose proof (depth_in _ _ Hx). lia. }
     destruct k as [|k0 kr].
